@@ -200,12 +200,17 @@ def r3_effects(ctx, fields, setters, pairing):
     ok = len(reset) == 1 and reset[0][1][0] == "c" and reset[0][1][1] == 0
     ctx.ob(rid, "make|clock-reset-to-zero", ok, "" if ok else "under is_halfmove_reset make assigns %s to halfmove_clock" % [show(w[1]) for w in reset], ctx.where(mk))
     ok = len(inc) == 1 and inc[0][1][0] == "bin" and inc[0][1][1] == "Add" and ("c", 1, "u32", None) in (inc[0][1][2], inc[0][1][3]) and ("f", ("*", ("param", 1)), "halfmove_clock") in (inc[0][1][2], inc[0][1][3])
-    ctx.ob(rid, "make|clock-incremented-by-one", ok, "" if ok else "without reset make assigns %s to halfmove_clock (expected halfmove_clock + 1)" % [show(w[1]) for w in inc], ctx.where(mk))
+    ctx.ob(rid, "make|clock-incremented-by-one", ok, "" if ok else "without reset make assigns %s to halfmove_clock (expected exactly one assignment, of halfmove_clock + 1; unconditional or other-branch assignments: %s)" % ([show(w[1]) for w in inc], [show(w[1]) for w in clock_writes if w[0] is None]), ctx.where(mk))
     ctx.ob(rid, "make|ep-square-from-move", ep_ok, "" if ep_ok else "make does not assign en_passant_square_shift from the move's next-e.p. field", ctx.where(mk))
-    ctx.ob(rid, "make|side-flipped", turn_ok, "" if turn_ok else "make does not assign turn = opposite_turn()", ctx.where(mk))
-    before = full_block is not None and turn_block is not None and (full_block[0] != turn_block[0] and cfg.dominates(full_block[0], turn_block[0]) or (full_block[0] == turn_block[0] and full_block[1] < turn_block[1]))
-    ok = full_ok and before
-    ctx.ob(rid, "make|move-number-adds-mover-colour", ok, "" if ok else "fullmove_clock must be increased by the mover's colour (BLACK = 1) before the side is flipped (found: add of turn %s, before flip %s)" % (full_ok, before), ctx.where(mk))
+    from . import c03
+    run_fn = c03.side_number_runner(ctx, rid, ("make",))
+    if run_fn is not None:
+        for t in (0, 1):
+            r1 = run_fn("make", t, 1000)
+            ok = set(r1) == {(1 - t, 1000 + t)}
+            ctx.ob(rid, "make|side-flipped-and-number-adds-mover-colour|turn=%d" % t, ok,
+                   "" if ok else "make with turn=%d (%s to move): over its feasible paths (side, change of the full-move number) becomes %s; expected exactly (%d, %+d): the side flips on every move and the number grows after black's move only" % (
+                       t, "black" if t else "white", sorted((a, b - 1000 if isinstance(b, int) else b) for a, b in r1), 1 - t, t), ctx.where(mk))
 
 
 def enumerate_generator(ctx, rid):
